@@ -31,29 +31,57 @@ theorem kids3_ok (k1 k2 k3 : Kids) (x : A) (hpre : PreK (k1.positions ++ (k2.pos
     simp [Kids.inner_false k2 q hq.1, Kids.inner_false k3 q hq.2]
 
 /-! ### `for` -/
-theorem for_n (ls : List Id) (p : Nat) (i u t : Kids) (hasTest tt : Bool) (body : Stmt) :
-    (Stmt.compl ls (.forS p i u t hasTest tt body)).n = ((hasTest && !tt) || (body.compl []).b) ∧
-    (Stmt.compl ls (.forS p i u t hasTest tt body)).b = false ∧ (Stmt.compl ls (.forS p i u t hasTest tt body)).c = false ∧
-    ((Stmt.compl ls (.forS p i u t hasTest tt body)).hasCl = true → (body.compl []).hasCl = true) := by
-  refine ⟨by simp [Stmt.compl], by simp [Stmt.compl], by simp [Stmt.compl], ?_⟩
-  intro h
-  simp only [Stmt.compl, seq_hasCl, testCompl_hasCl, evalCompl_hasCl, evalCompl_n, testCompl_n, Bool.true_and, Bool.false_or] at h
-  simpa using loopCompl_hasCl _ _ _ h
+/-- two pieces of the flow in sequence, the precondition of the second derived from the postcondition of the first -/
+theorem seqL (live : Bool) (us vs ps qs : List Nat) (cx cy : Compl) (rx ry ix iy : Nat → Bool) (a a1 a2 : A)
+    (hpre : Pre live (ps ++ qs) a)
+    (hx : PostL live us ps cx rx ix a a1)
+    (hy : Pre (live && cx.n) qs a1 → PostL (live && cx.n) vs qs cy ry iy a1 a2)
+    (hus : ∀ p, p ∈ us → p ∈ ps) (hvs : ∀ p, p ∈ vs → p ∈ qs)
+    (hrx : ∀ p, p ∉ ps → rx p = false) (hry : ∀ p, p ∉ qs → ry p = false)
+    (hix : ∀ p, p ∉ ps → ix p = false) (hiy : ∀ p, p ∉ qs → iy p = false) :
+    PostL live (us ++ vs) (ps ++ qs) (cx.seq cy) (fun p => rx p || (cx.n && ry p)) (fun p => ix p || iy p) a a2 := by
+  have hnd := List.nodup_append.mp hpre.nodup
+  have hdisj : ∀ p, p ∈ ps → p ∈ qs → False := fun p h1 h2 => hnd.2.2 p h1 p h2 rfl
+  have hpre2 : Pre (live && cx.n) qs a1 := by
+    refine ⟨hx.p1, ?_, hnd.2.1⟩
+    intro p hp
+    rw [endAt_eq_of_info_eq (hx.frame p (fun h => hdisj p h hp))]
+    exact hpre.fresh p (List.mem_append.mpr (Or.inr hp))
+  exact seq_ok live us vs ps qs cx cy rx ry ix iy a a1 a2 hx (hy hpre2) hdisj hus hvs hrx hry hix hiy
 
-theorem for_t (ls : List Id) (p : Nat) (i u t : Kids) (hasTest tt : Bool) (body : Stmt)
-    (h : (Stmt.compl ls (.forS p i u t hasTest tt body)).t = true) :
-    (i.mayThrow || (u.mayThrow || t.mayThrow)) = true ∨ (body.compl []).t = true := by
-  simp only [Stmt.compl, seq_t, evalCompl_t, evalCompl_n, testCompl_t, testCompl_n, loopCompl_t, union_t, guard_t, abrupt_t,
-    Bool.true_and] at h
-  revert h
-  cases tt <;> cases i.mayThrow <;> cases u.mayThrow <;> cases t.mayThrow <;> cases (body.compl []).t <;> simp
+theorem Pre.left {live : Bool} {ps qs : List Nat} {a : A} (h : Pre live (ps ++ qs) a) : Pre live ps a :=
+  h.sub (fun p hp => List.mem_append.mpr (Or.inl hp)) (List.nodup_append.mp h.nodup).1
 
-theorem forInOf_t (ls : List Id) (p : Nat) (l r : Kids) (body : Stmt)
-    (h : (Stmt.compl ls (.forInOf p l r body)).t = true) :
-    (l.mayThrow || r.mayThrow) = true ∨ (body.compl []).t = true := by
-  simp only [Stmt.compl, seq_t, evalCompl_t, evalCompl_n, seq_n, loopCompl_t, union_t, abrupt_t, Bool.true_and, Bool.and_self] at h
-  revert h
-  cases l.mayThrow <;> cases r.mayThrow <;> cases (body.compl []).t <;> simp
+theorem kids2L (live : Bool) (k1 k2 : Kids) (x : A) (hpre : Pre live (k1.positions ++ k2.positions) x)
+    (ih1 : ∀ (l : Bool) x, Pre l k1.positions x → KidsL l k1 x (visitKids k1 x))
+    (ih2 : ∀ (l : Bool) x, Pre l k2.positions x → KidsL l k2 x (visitKids k2 x)) :
+    PostL live (k1.upos ++ k2.upos) (k1.positions ++ k2.positions) (k1.compl.seq k2.compl)
+      (fun p => k1.flowReach p || (k1.compl.n && k2.flowReach p)) (fun p => k1.inner p || k2.inner p) x
+      (visitKids k2 (visitKids k1 x)) :=
+  seqL live _ _ _ _ _ _ _ _ _ _ x _ _ hpre (ih1 live x hpre.left) (fun h => ih2 _ _ h)
+    (Kids.upos_sub k1) (Kids.upos_sub k2) (Kids.flowReach_false k1) (Kids.flowReach_false k2)
+    (Kids.inner_false k1) (Kids.inner_false k2)
+
+theorem kids3L (live : Bool) (k1 k2 k3 : Kids) (x : A) (hpre : Pre live (k1.positions ++ (k2.positions ++ k3.positions)) x)
+    (ih1 : ∀ (l : Bool) x, Pre l k1.positions x → KidsL l k1 x (visitKids k1 x))
+    (ih2 : ∀ (l : Bool) x, Pre l k2.positions x → KidsL l k2 x (visitKids k2 x))
+    (ih3 : ∀ (l : Bool) x, Pre l k3.positions x → KidsL l k3 x (visitKids k3 x)) :
+    PostL live (k1.upos ++ (k2.upos ++ k3.upos)) (k1.positions ++ (k2.positions ++ k3.positions))
+      (k1.compl.seq (k2.compl.seq k3.compl))
+      (fun p => k1.flowReach p || (k1.compl.n && (k2.flowReach p || (k2.compl.n && k3.flowReach p))))
+      (fun p => k1.inner p || (k2.inner p || k3.inner p)) x (visitKids k3 (visitKids k2 (visitKids k1 x))) := by
+  refine seqL live _ _ _ _ _ _ _ _ _ _ x _ _ hpre (ih1 live x hpre.left) (fun h => kids2L _ k2 k3 _ h ih2 ih3)
+    (Kids.upos_sub k1) ?_ (Kids.flowReach_false k1) ?_ (Kids.inner_false k1) ?_
+  · intro q hq
+    rcases List.mem_append.mp hq with h | h
+    · exact List.mem_append.mpr (Or.inl (Kids.upos_sub k2 q h))
+    · exact List.mem_append.mpr (Or.inr (Kids.upos_sub k3 q h))
+  · intro q hq
+    simp only [List.mem_append, not_or] at hq
+    simp [Kids.flowReach_false k2 q hq.1, Kids.flowReach_false k3 q hq.2]
+  · intro q hq
+    simp only [List.mem_append, not_or] at hq
+    simp [Kids.inner_false k2 q hq.1, Kids.inner_false k3 q hq.2]
 
 theorem forTail_ok (live hasTest tt : Bool) (p : Nat) (body : Stmt) (x b' : A) (hb : PostS live [] body x b') :
     TailOK live ((hasTest && !tt) || (body.compl []).b) body.pos [p] b' (forTail p body.pos body.isDeclOrExpr hasTest tt b') := by
@@ -78,23 +106,25 @@ theorem forTail_ok (live hasTest tt : Bool) (p : Nat) (body : Stmt) (x b' : A) (
     rw [markAsEnd_endAt_other _ _ _ _ hqbp, hnone] at hst
     simp at hst
 
-/-- a loop statement whose expressions are all visited before the loop scope is entered (`for`, `for-in/of`) -/
-theorem kidsThenLoop (live loopN : Bool) (ls : List Id) (s : Stmt) (p : Nat) (kus kps : List Nat) (kinn : Nat → Bool) (kt : Bool) (body : Stmt)
+/-- a loop statement whose expressions (completions `tc`) are all visited before the loop scope is entered
+(`for`, `for-in/of`): the loop is live when they can complete normally -/
+theorem kidsThenLoop (live loopN : Bool) (ls : List Id) (s : Stmt) (p : Nat) (kus kps : List Nat) (tc : Compl)
+    (tr ti : Nat → Bool) (body : Stmt)
     (extra : List Nat) (tail : A → A) (a a1 : A)
     (hpos : s.positions = p :: (kps ++ body.positions)) (hup : s.upos = p :: (kus ++ body.upos)) (hp : s.pos = p)
-    (hn : (s.compl ls).n = loopN) (hb0 : (s.compl ls).b = false) (hc0 : (s.compl ls).c = false)
-    (hl0 : (s.compl ls).hasCl = true → (body.compl []).hasCl = true)
-    (ht0 : (s.compl ls).t = true → kt = true ∨ (body.compl []).t = true)
-    (hr : ∀ q, s.reach q = (q == p || body.reach q)) (hin : ∀ q, s.inner q = (kinn q || body.inner q))
-    (hkus : ∀ q, q ∈ kus → q ∈ kps) (hkinn : ∀ q, q ∉ kps → kinn q = false)
+    (hn : (s.compl ls).n = (tc.n && loopN)) (hb0 : (s.compl ls).b = false) (hc0 : (s.compl ls).c = false)
+    (hl0 : (s.compl ls).hasCl = true → tc.n = true ∧ (body.compl []).hasCl = true)
+    (ht0 : (s.compl ls).t = true → tc.t = true ∨ (tc.n = true ∧ (body.compl []).t = true))
+    (hr : ∀ q, s.reach q = (q == p || tr q || (tc.n && body.reach q))) (hin : ∀ q, s.inner q = (ti q || body.inner q))
+    (hkus : ∀ q, q ∈ kus → q ∈ kps) (hti : ∀ q, q ∉ kps → ti q = false) (htr : ∀ q, q ∉ kps → tr q = false)
     (hextra : ∀ q, q ∈ extra → q = p)
     (hpre : Pre live (p :: (kps ++ body.positions)) a)
-    (hk : PostK kus kps kinn kt (flagA a p .other) a1)
-    (ih : ∀ a0, Pre live body.positions a0 → PostS live [] body a0 (visitStmt body a0))
-    (htail : ∀ b', PostS live [] body (childA .loop a1) b' → TailOK live loopN body.pos extra b' (tail b')) :
+    (hk : PostL live kus kps tc tr ti (flagA a p .other) a1)
+    (ih : ∀ a0, Pre (live && tc.n) body.positions a0 → PostS (live && tc.n) [] body a0 (visitStmt body a0))
+    (htail : ∀ b', PostS (live && tc.n) [] body (childA .loop a1) b' → TailOK (live && tc.n) loopN body.pos extra b' (tail b')) :
     PostS live ls s a (withChild .loop body.pos (fun x => tail (visitStmt body x)) a1) := by
   have hx := Prefix.of hpre hk
-  have hc := loopCore live loopN p body.pos body extra tail a1 rfl hx.hs hx.hfresh hx.pr hx.ndr ih htail
+  have hc := loopCore (live && tc.n) loopN p body.pos body extra tail a1 rfl hx.hs hx.hfresh hx.pr hx.ndr ih htail
   generalize withChild .loop body.pos (fun x => tail (visitStmt body x)) a1 = r at hc
   have htu : ∀ q, q ∈ kus → q ≠ p ∧ q ∉ body.positions := fun q hq =>
     ⟨fun e => hx.pk (e ▸ hkus q hq), fun h => hx.disj q (hkus q hq) h⟩
@@ -103,14 +133,16 @@ theorem kidsThenLoop (live loopN : Bool) (ls : List Id) (s : Stmt) (p : Nat) (ku
   have hfr : ∀ q, q ≠ p → q ∉ body.positions → r.info q = a1.info q := fun q h1 h2 =>
     hc.frame q (by simp only [List.mem_cons, not_or]; exact ⟨h1, h2⟩) (fun h => h1 (hextra q h))
   refine ⟨⟨?_, ?_, ?_, ?_, ?_, ?_, ?_, ?_, ?_, ?_, ?_⟩, ?_⟩
-  · intro hst; rw [hn]; exact hc.stop hst
+  · intro hst; rw [hn, ← Bool.and_assoc]; exact hc.stop hst
   · simp [hb0]
   · simp [hc0]
-  · intro hh; rw [hc.fbk, hx.hb]; exact hh
+  · intro hh; rw [hc.fbk]; exact hx.hb hh
   · intro hh; exact hc.fc (hx.hc hh)
   · intro hh
     apply hc.fcBody
-    revert hh hl0; cases live <;> cases (s.compl ls).hasCl <;> simp
+    simp only [Bool.and_eq_true] at hh ⊢
+    have := hl0 hh.2
+    exact ⟨⟨hh.1, this.1⟩, this.2⟩
   · intro q hq hu'
     rw [hup] at hq
     simp only [List.mem_cons, List.mem_append] at hq
@@ -119,18 +151,20 @@ theorem kidsThenLoop (live loopN : Bool) (ls : List Id) (s : Stmt) (p : Nat) (ku
     · rw [hc.urp] at hu'
       have := hx.dead hpre _ rfl hu'
       simp [this]
-    · simp [(htu q hqt).1, body.reach_false q (htu q hqt).2]
+    · rw [ur_eq_of_info_eq (hfr q (htu q hqt).1 (htu q hqt).2)] at hu'
+      have := hk.p3 q hqt hu'
+      revert this; cases live <;> simp [(htu q hqt).1, body.reach_false q (htu q hqt).2]
     · have := hc.p3 q hqb hu'
-      revert this; cases live <;> simp [(hbu q hqb).1]
+      revert this; cases live <;> cases tc.n <;> simp [(hbu q hqb).1, htr q (hbu q hqb).2]
   · intro q hq hu'
     rw [hup] at hq
     simp only [List.mem_cons, List.mem_append] at hq
     rw [hin]
     rcases hq with rfl | hqt | hqb
-    · simp [hkinn q hx.pk, body.inner_false q hx.pr]
+    · simp [hti q hx.pk, body.inner_false q hx.pr]
     · rw [ur_eq_of_info_eq (hfr q (htu q hqt).1 (htu q hqt).2)] at hu'
-      simp [hk.p3 q hqt hu', body.inner_false q (htu q hqt).2]
-    · simp [hc.p3i q hqb hu', hkinn q (hbu q hqb).2]
+      simp [hk.p3i q hqt hu', body.inner_false q (htu q hqt).2]
+    · simp [hc.p3i q hqb hu', hti q (hbu q hqb).2]
   · intro q hq
     rw [hpos] at hq
     simp only [List.mem_cons, List.mem_append, not_or] at hq
@@ -140,31 +174,70 @@ theorem kidsThenLoop (live loopN : Bool) (ls : List Id) (s : Stmt) (p : Nat) (ku
   · intro hh
     simp only [Bool.and_eq_true] at hh
     rcases ht0 hh.2 with ht | ht
-    · exact hc.mt (Prefix.pT hpre hk (by simp [hh.1, ht]))
-    · exact hc.tBody (by simp [hh.1, ht])
+    · exact hc.mt (hx.pT (by simp [hh.1, ht]))
+    · exact hc.tBody (by simp [hh.1, ht.1, ht.2])
   · intro _ hst
     rw [hp] at hst
-    rw [hn]
+    rw [hn, ← Bool.and_assoc]
     by_cases hpe : p ∈ extra
     · exact hc.pExtra hpe hst hx.hp
     · rw [hc.atP hpe, hx.hp] at hst; simp at hst
 
+/-! ### `for` -/
+theorem for_fields (ls : List Id) (p : Nat) (i u t : Kids) (hasTest tt : Bool) (body : Stmt)
+    (hi : i.compl.plain = true) (hu : u.pure = true) (ht : t.compl.plain = true) (htt : tt = true → t.pure = true) :
+    let s := Stmt.compl ls (.forS p i u t hasTest tt body)
+    let K := i.compl.seq (u.compl.seq t.compl)
+    s.n = (K.n && ((hasTest && !tt) || (body.compl []).b)) ∧ s.b = false ∧ s.c = false ∧
+    (s.hasCl = true → K.n = true ∧ (body.compl []).hasCl = true) ∧
+    (s.t = true → K.t = true ∨ (K.n = true ∧ (body.compl []).t = true)) ∧
+    (testCompl tt t).n = t.compl.n := by
+  have htn : (testCompl tt t).n = t.compl.n := by
+    rw [testCompl_n]; cases htt' : tt with
+    | false => simp
+    | true => rw [Kids.compl_pure t (htt htt')]; rfl
+  have hp := testCompl_plain tt t ht
+  have hup := Kids.compl_pure u hu
+  refine ⟨?_, ?_, ?_, ?_, ?_, htn⟩
+  · simp only [Stmt.compl, testComplOf_eq, seq_n, evalCompl_eq, union_n, loopCompl_n, guard_n, abrupt_n, htn, hup, pureCompl_n]
+    cases i.compl.n <;> cases t.compl.n <;> simp
+  · simp [Stmt.compl, Compl.plain_b hi, Compl.plain_b hp, hup]
+  · simp [Stmt.compl, Compl.plain_c hi, Compl.plain_c hp, hup]
+  · intro h
+    simp only [Stmt.compl, testComplOf_eq, seq_hasCl, evalCompl_eq, Compl.plain_hasCl hi, Compl.plain_hasCl hp, union_hasCl, guard_hasCl,
+      abrupt_hasCl, hup, pureCompl_hasCl, pureCompl_n, Bool.false_or, Bool.and_false, Bool.or_false, Bool.and_eq_true, htn] at h
+    refine ⟨?_, loopCompl_hasCl _ _ _ h.2.2⟩
+    simp [hup, h.1, h.2.1]
+  · intro h
+    simp only [Stmt.compl, testComplOf_eq, seq_t, evalCompl_eq, union_t, loopCompl_t, guard_t, abrupt_t, testCompl_t, htn, hup, pureCompl_t,
+      pureCompl_n, seq_n] at h ⊢
+    revert h
+    cases tt <;> cases i.compl.t <;> cases i.compl.n <;> cases u.mayThrow <;> cases t.compl.t <;> cases t.compl.n <;>
+      cases (body.compl []).t <;> cases goesRound ls (body.compl []) <;> simp
+
 theorem for_ok (live : Bool) (ls : List Id) (p : Nat) (i u t : Kids) (hasTest tt : Bool) (body : Stmt) (a : A)
+    (hi : i.compl.plain = true) (hu : u.pure = true) (ht : t.compl.plain = true) (htt : tt = true → t.pure = true)
     (hpre : Pre live (p :: ((i.positions ++ (u.positions ++ t.positions)) ++ body.positions)) a)
-    (ihi : ∀ x, PreK i.positions x → PostK i.upos i.positions i.inner i.mayThrow x (visitKids i x))
-    (ihu : ∀ x, PreK u.positions x → PostK u.upos u.positions u.inner u.mayThrow x (visitKids u x))
-    (iht : ∀ x, PreK t.positions x → PostK t.upos t.positions t.inner t.mayThrow x (visitKids t x))
-    (ih : ∀ a0, Pre live body.positions a0 → PostS live [] body a0 (visitStmt body a0)) :
+    (ihi : ∀ (l : Bool) x, Pre l i.positions x → KidsL l i x (visitKids i x))
+    (ihu : ∀ (l : Bool) x, Pre l u.positions x → KidsL l u x (visitKids u x))
+    (iht : ∀ (l : Bool) x, Pre l t.positions x → KidsL l t x (visitKids t x))
+    (ih : ∀ (l : Bool) a0, Pre l body.positions a0 → PostS l [] body a0 (visitStmt body a0)) :
     PostS live ls (.forS p i u t hasTest tt body) a (visitStmt (.forS p i u t hasTest tt body) a) := by
   have hv : visitStmt (.forS p i u t hasTest tt body) a =
       withChild .loop body.pos (fun x => forTail p body.pos body.isDeclOrExpr hasTest tt (visitStmt body x))
         (visitKids t (visitKids u (visitKids i (flagA a p .other)))) := by
     simp [visitStmt, flagA]
   rw [hv]
-  have hk := kids3_ok i u t _ (Prefix.preK hpre) ihi ihu iht
-  obtain ⟨hn, hb0, hc0, hl0⟩ := for_n ls p i u t hasTest tt body
-  refine kidsThenLoop live _ ls _ p _ _ _ _ body [p] _ a _ rfl rfl rfl hn hb0 hc0 hl0 (for_t ls p i u t hasTest tt body) (fun q => rfl) ?_ ?_ ?_ (by simp) hpre hk ih
-    (fun b' hb => forTail_ok live hasTest tt p body _ b' hb)
+  have hk := kids3L live i u t _ (Prefix.pre hpre) ihi ihu iht
+  obtain ⟨hn, hb0, hc0, hl0, ht0, htn⟩ := for_fields ls p i u t hasTest tt body hi hu ht htt
+  have hup := Kids.compl_pure u hu
+  refine kidsThenLoop live _ ls _ p _ _ _ _ _ body [p] _ a _ rfl rfl rfl hn hb0 hc0 hl0 ht0 ?_ ?_ ?_ ?_ ?_ (by simp) hpre hk
+    (fun a0 h0 => ih _ a0 h0) (fun b' hb => forTail_ok _ hasTest tt p body _ b' hb)
+  · intro q
+    simp only [Stmt.reach, evalCompl_eq, testComplOf_eq, htn, seq_n, hup, pureCompl_n, Kids.flowReach_pure u q hu, Bool.and_false, Bool.or_false,
+      Bool.true_and, Bool.false_or]
+    cases (q == p) <;> cases i.flowReach q <;> cases i.compl.n <;> cases t.flowReach q <;> cases t.compl.n <;>
+      cases body.reach q <;> rfl
   · intro q; simp [Stmt.inner, Bool.or_assoc]
   · intro q hq
     simp only [List.mem_append] at hq ⊢
@@ -172,30 +245,54 @@ theorem for_ok (live : Bool) (ls : List Id) (p : Nat) (i u t : Kids) (hasTest tt
   · intro q hq
     simp only [List.mem_append, not_or] at hq
     simp [Kids.inner_false i q hq.1, Kids.inner_false u q hq.2.1, Kids.inner_false t q hq.2.2]
+  · intro q hq
+    simp only [List.mem_append, not_or] at hq
+    simp [Kids.flowReach_false i q hq.1, Kids.flowReach_false u q hq.2.1, Kids.flowReach_false t q hq.2.2]
 
 /-! ### `for-in` / `for-of` -/
+theorem forIn_fields (ls : List Id) (p : Nat) (l r : Kids) (body : Stmt) (hl : l.pure = true) (hr : r.compl.plain = true) :
+    let s := Stmt.compl ls (.forInOf p l r body)
+    let K := l.compl.seq r.compl
+    s.n = (K.n && true) ∧ s.b = false ∧ s.c = false ∧
+    (s.hasCl = true → K.n = true ∧ (body.compl []).hasCl = true) ∧
+    (s.t = true → K.t = true ∨ (K.n = true ∧ (body.compl []).t = true)) := by
+  have hlp := Kids.compl_pure l hl
+  refine ⟨?_, ?_, ?_, ?_, ?_⟩
+  · simp [Stmt.compl, hlp]
+  · simp [Stmt.compl, Compl.plain_b hr, hlp]
+  · simp [Stmt.compl, Compl.plain_c hr, hlp]
+  · intro h
+    simp only [Stmt.compl, testComplOf_eq, seq_hasCl, evalCompl_eq, Compl.plain_hasCl hr, union_hasCl, abrupt_hasCl, hlp, pureCompl_hasCl,
+      pureCompl_n, seq_n, Bool.false_or, Bool.and_false, Bool.or_false, Bool.and_true, Bool.and_eq_true] at h
+    refine ⟨by simp [hlp, h.1], loopCompl_hasCl _ _ _ h.2⟩
+  · intro h
+    simp only [Stmt.compl, testComplOf_eq, seq_t, evalCompl_eq, union_t, loopCompl_t, abrupt_t, hlp, pureCompl_t, pureCompl_n, seq_n,
+      Bool.and_true, Bool.true_and] at h ⊢
+    revert h
+    cases l.mayThrow <;> cases r.compl.t <;> cases r.compl.n <;> cases (body.compl []).t <;> simp
+
 theorem forInOf_ok (live : Bool) (ls : List Id) (p : Nat) (l r : Kids) (body : Stmt) (a : A)
+    (hl : l.pure = true) (hr : r.compl.plain = true)
     (hpre : Pre live (p :: ((l.positions ++ r.positions) ++ body.positions)) a)
-    (ihl : ∀ x, PreK l.positions x → PostK l.upos l.positions l.inner l.mayThrow x (visitKids l x))
-    (ihr : ∀ x, PreK r.positions x → PostK r.upos r.positions r.inner r.mayThrow x (visitKids r x))
-    (ih : ∀ a0, Pre live body.positions a0 → PostS live [] body a0 (visitStmt body a0)) :
+    (ihl : ∀ (lv : Bool) x, Pre lv l.positions x → KidsL lv l x (visitKids l x))
+    (ihr : ∀ (lv : Bool) x, Pre lv r.positions x → KidsL lv r x (visitKids r x))
+    (ih : ∀ (lv : Bool) a0, Pre lv body.positions a0 → PostS lv [] body a0 (visitStmt body a0)) :
     PostS live ls (.forInOf p l r body) a (visitStmt (.forInOf p l r body) a) := by
   have hv : visitStmt (.forInOf p l r body) a =
       withChild .loop body.pos (fun x => forInOfTail body.pos (visitStmt body x))
         (visitKids r (visitKids l (flagA a p .other))) := by
     simp [visitStmt, flagA]
   rw [hv]
-  have hk := kids2_ok l r _ (Prefix.preK hpre) ihl ihr
-  have hn : (Stmt.compl ls (.forInOf p l r body)).n = true ∧ (Stmt.compl ls (.forInOf p l r body)).b = false ∧
-      (Stmt.compl ls (.forInOf p l r body)).c = false := by simp [Stmt.compl]
-  have hl0 : (Stmt.compl ls (.forInOf p l r body)).hasCl = true → (body.compl []).hasCl = true := by
-    intro h
-    simp only [Stmt.compl, seq_hasCl, evalCompl_hasCl, evalCompl_n, Bool.true_and, Bool.false_or, Bool.and_false, Bool.or_false] at h
-    simpa using loopCompl_hasCl _ _ _ h
-  refine kidsThenLoop live true ls _ p _ _ _ _ body [] _ a _ rfl rfl rfl hn.1 hn.2.1 hn.2.2 hl0 (forInOf_t ls p l r body) (fun q => rfl) ?_ ?_ ?_ (by simp) hpre hk ih
+  have hk := kids2L live l r _ (Prefix.pre hpre) ihl ihr
+  obtain ⟨hn, hb0, hc0, hl0, ht0⟩ := forIn_fields ls p l r body hl hr
+  have hlp := Kids.compl_pure l hl
+  refine kidsThenLoop live true ls _ p _ _ _ _ _ body [] _ a _ rfl rfl rfl hn hb0 hc0 hl0 ht0 ?_ ?_ ?_ ?_ ?_ (by simp) hpre hk
+    (fun a0 h0 => ih _ a0 h0)
     (fun b' _ => by
       unfold forInOfTail
       exact ⟨fun q hq _ => markAsEnd_info_other _ _ _ _ hq, fun q => by simp, by simp, by simp, by simp, ⟨_, rfl⟩, by simp, by simp⟩)
+  · intro q
+    simp only [Stmt.reach, evalCompl_eq, seq_n, hlp, pureCompl_n, Kids.flowReach_pure l q hl, Bool.true_and, Bool.false_or]
   · intro q; simp [Stmt.inner]
   · intro q hq
     simp only [List.mem_append] at hq ⊢
@@ -203,5 +300,8 @@ theorem forInOf_ok (live : Bool) (ls : List Id) (p : Nat) (l r : Kids) (body : S
   · intro q hq
     simp only [List.mem_append, not_or] at hq
     simp [Kids.inner_false l q hq.1, Kids.inner_false r q hq.2]
+  · intro q hq
+    simp only [List.mem_append, not_or] at hq
+    simp [Kids.flowReach_false l q hq.1, Kids.flowReach_false r q hq.2]
 
 end DL.CF
